@@ -346,12 +346,12 @@ impl Generator {
             }
             // Update the checksum and buckets
             self.checksum.update(b4, b3);
-            self.buckets.increment(Self::b_mapping(0x2, b4, b3, b2));
+            self.buckets.increment(Self::b_mapping(0xd, b4, b1, b0));
             self.buckets.increment(Self::b_mapping(0x3, b4, b3, b1));
             self.buckets.increment(Self::b_mapping(0x5, b4, b2, b1));
             self.buckets.increment(Self::b_mapping(0x7, b4, b2, b0));
             self.buckets.increment(Self::b_mapping(0xb, b4, b3, b0));
-            self.buckets.increment(Self::b_mapping(0xd, b4, b1, b0));
+            self.buckets.increment(Self::b_mapping(0x2, b4, b3, b2));
             proof {
                 // order-agnostic: whatever order the six increments ran in, pointwise result is bump(pre, SPEC)
                 let i0 = bmap(2, b4, b3, b2); let i1 = bmap(3, b4, b3, b1); let i2 = bmap(5, b4, b2, b1);
